@@ -14,7 +14,8 @@
    a state; a compiled generator returns (trees handed out, how it ended). *)
 From Coq Require Import ZArith List Bool.
 From DV Require Import Model.PyPrims Model.C13Model Model.C13GenPrims Gen.Routes
-  Proofs.C13GenStmts Proofs.C13GenReader Proofs.C13GenYielder Proofs.C13GenEntry Proofs.C13GenFinal.
+  Proofs.C13GenStmts Proofs.C13GenObjects Proofs.C13GenWf Proofs.C13GenTaxa Proofs.C13GenReader Proofs.C13GenYielder
+  Proofs.C13GenGlue Proofs.C13GenEntry Proofs.C13GenFinal.
 Import ListNotations.
 Open Scope Z_scope.
 
@@ -103,9 +104,45 @@ Theorem gen_new_tree_list :
 Proof. exact g_new_tree_list_eq. Qed.
 Print Assumptions gen_new_tree_list.
 
-(* NexusReader._parse_taxa_block (with _parse_taxlabels_statement as an interface operation) *)
+(* ---- well-formed reader states ----
+   wfr T c s (Proofs/C13GenWf.v): every namespace handle registered in self._taxon_namespaces, and namespace 0
+   when the route owns one (attached namespace or a pseudo-factory), is below the number of namespace objects
+   of the state.  The compiled TAXLABELS / TRANSLATE code updates the namespace object taxon by taxon, the
+   model writes it back once: they agree on handles of existing objects.  The fresh state of every route is
+   well-formed and every function of the model preserves it (Proofs/C13GenWf.v). *)
+Theorem gen_initial_state_wellformed :
+  forall (T : Type) (cf : cfg) (ns0 : list str) (d : doc), wfr T (c_ns cf) (nexus_init T cf ns0 d).
+Proof. intros. apply nexus_init_wf. reflexivity. Qed.
+Print Assumptions gen_initial_state_wellformed.
+
+(* NexusReader._parse_taxlabels_statement(taxon_namespace) over the atomic namespace / taxon / label-set
+   operations (for taxon in ns._taxa, label.lower(), `in label_set`, get_taxon, new_taxon, len(ns), ..) *)
+Theorem gen_parse_taxlabels_statement :
+  forall (T : Type) (lower upper : str -> str) (c : nscfg)
+         (k : core) (g : regs) (tls : list (tlval T)) (reg : list nat) (i : nat),
+  (i < length (k_nss k))%nat -> (c_attached c = true -> i = O) ->
+  forall fuel : nat,
+  g_parse_taxlabels_statement T lower upper c fuel (mkRs k g tls reg) (Some i)
+  = (do k' <- parse_taxlabels lower c fuel k i ;; Ok (tt, mkRs k' g tls reg)).
+Proof. exact g_parse_taxlabels_eq_at. Qed.
+Print Assumptions gen_parse_taxlabels_statement.
+
+(* NexusReader._parse_translate_statement(taxon_namespace): try/except around require_taxon, is_mutable followed
+   as a local (the symbol mapper constructed by _get_taxon_symbol_mapper locks the namespace) *)
+Theorem gen_parse_translate_statement :
+  forall (T : Type) (lower : str -> str)
+         (k : core) (g : regs) (tls : list (tlval T)) (reg : list nat) (i : nat),
+  (i < length (k_nss k))%nat ->
+  forall fuel : nat,
+  g_parse_translate_statement T lower fuel (mkRs k g tls reg) (Some i)
+  = (do r <- parse_translate lower fuel k i ;; let '(m, k') := r in Ok (Some (i, m), mkRs k' g tls reg)).
+Proof. exact g_parse_translate_eq_at. Qed.
+Print Assumptions gen_parse_translate_statement.
+
+(* NexusReader._parse_taxa_block *)
 Theorem gen_parse_taxa_block :
   forall (T : Type) (lower upper : str -> str) (c : nscfg) (fuel : nat) (s : gst T),
+  wfr T c s ->
   g_parse_taxa_block T lower upper c fuel s
   = (do r <- parse_taxa_block lower upper c fuel (r_k s) (r_g s) ;;
      let '(k, g) := r in Ok (tt, st_set_kg T s k g)).
@@ -119,6 +156,7 @@ Theorem gen_parse_trees_block :
          (parse_tree : mapper -> tz -> res (option T * mapper * tz))
          (set_label : T -> option str -> T) (add_comments : T -> list str -> T)
          (c : nscfg) (tlf : tl_factory) (et : bool) (fuel : nat) (s : gst T),
+  wfr T c s ->
   g_parse_trees_block T lower upper parse_tree set_label add_comments c tlf et fuel s
   = (do s' <- r_parse_trees_block T lower upper parse_tree set_label add_comments true c tlf et fuel s ;; Ok (tt, s')).
 Proof. exact g_parse_trees_block_eq. Qed.
@@ -129,6 +167,7 @@ Theorem gen_parse_nexus_stream :
          (parse_tree : mapper -> tz -> res (option T * mapper * tz))
          (set_label : T -> option str -> T) (add_comments : T -> list str -> T)
          (c : nscfg) (tlf : tl_factory) (et : bool) (fuel : nat) (s : gst T),
+  wfr T c s ->
   g_parse_nexus_stream T lower upper parse_tree set_label add_comments c tlf et fuel s tt
   = (do s' <- r_parse_nexus_stream T lower upper parse_tree set_label add_comments true c tlf et true fuel s ;;
      Ok (tt, s')).
@@ -142,6 +181,7 @@ Theorem gen_yield_from_trees_block :
          (parse_tree : mapper -> tz -> res (option T * mapper * tz))
          (set_label : T -> option str -> T) (add_comments : T -> list str -> T)
          (c : nscfg) (et : bool) (fuel : nat) (k : core) (g : regs) (tls : list (tlval T)) (reg : list nat),
+  wfs c k g ->
   let Y := y_trees_block T lower upper parse_tree set_label add_comments true c et fuel k g in
   g_yield_from_trees_block T lower upper parse_tree set_label add_comments c et fuel (mkRs k g tls reg)
   = (fst Y, match snd Y with
@@ -157,6 +197,7 @@ Theorem gen_yield_items_from_stream :
          (parse_tree : mapper -> tz -> res (option T * mapper * tz))
          (set_label : T -> option str -> T) (add_comments : T -> list str -> T)
          (c : nscfg) (et : bool) (fuel : nat) (k : core) (g : regs) (tls : list (tlval T)) (reg : list nat),
+  wfs c k g ->
   let Y := y_items_from_stream T lower upper parse_tree set_label add_comments true c et fuel k g in
   g_yield_items_from_stream T lower upper parse_tree set_label add_comments c et fuel (mkRs k g tls reg) tt
   = (fst Y, match snd Y with
@@ -200,9 +241,48 @@ Theorem gen_newick_tree_iter :
 Proof. exact G_newick_tree_iter. Qed.
 Print Assumptions gen_newick_tree_iter.
 
+(* ============ 3c. reader-level methods ============ *)
+
+(* NexusReader._read called as DataReader.read_tree_lists calls it (no character-matrix factory): the reader
+   attributes it sets, the compiled _parse_nexus_stream under the configuration they hold, the Product *)
+Theorem gen_nexus_read :
+  forall (T : Type) (lower upper : str -> str)
+         (parse_tree : mapper -> tz -> res (option T * mapper * tz))
+         (set_label : T -> option str -> T) (add_comments : T -> list str -> T)
+         (fuel : nat) (s : gst T) (att : option nat) (et : bool) (fac : tns_factory) (tlf : tl_factory)
+         (saf gat : option unit),
+  wfr T (mkNsCfg (negb (on_is_none att)) fac) s ->
+  g_nexus_read T lower upper parse_tree set_label add_comments fuel s att et false tt fac (Some tlf) None saf gat
+  = (do s' <- r_parse_nexus_stream T lower upper parse_tree set_label add_comments true
+                (mkNsCfg (negb (on_is_none att)) fac) tlf et true fuel s ;; Ok (s', s')).
+Proof. exact g_nexus_read_eq. Qed.
+Print Assumptions gen_nexus_read.
+
+(* reader.read_tree_lists(..) on the fresh reader of a route = the COMPILED DataReader.read_tree_lists
+   dispatching to the compiled NexusReader._read / NewickReader._read (route_run, Proofs/C13GenGlue.v; the
+   hand-written part is the fresh state nexus_init and which class get_reader(schema) instantiates):
+   the model's nexus_read / newick_read *)
+Theorem gen_read_tree_lists :
+  forall (T : Type) (lower upper : str -> str)
+         (parse_tree : mapper -> tz -> res (option T * mapper * tz))
+         (set_label : T -> option str -> T) (add_comments : T -> list str -> T)
+         (sch : schema) (attached : bool) (tlf : tl_factory) (d : doc) (tl : list T),
+  route_run T lower upper parse_tree set_label add_comments sch attached tlf (doc_fuel d) d tl
+  = match sch with
+    | Nexus =>
+      do s <- nexus_read T lower upper parse_tree set_label add_comments true true
+                (mkCfg (mkNsCfg attached (FacFixed true)) tlf) [] d ;;
+      Ok (rs_blocks T s, match tlf with TLFixed => tl ++ rs_list0 T s | TLNew => tl end)
+    | Newick =>
+      do r <- newick_read T lower parse_tree [] d ;;
+      Ok ([fst r], match tlf with TLFixed => tl ++ fst r | TLNew => tl end)
+    end.
+Proof. exact route_run_eq. Qed.
+Print Assumptions gen_read_tree_lists.
+
 (* ============ 4. the two entry points with offsets ============ *)
-(* route_reader sch (Proofs/C13GenEntry.v) is what dataio.get_reader(schema) returns: for NEXUS its
-   read_tree_lists runs the COMPILED _parse_nexus_stream on a fresh reader over the document. *)
+(* route_reader sch (Proofs/C13GenGlue.v) is what dataio.get_reader(schema) returns: its read_tree_lists is
+   route_run above - compiled code from DataReader.read_tree_lists down to the block loops. *)
 
 (* Tree.get(collection_offset=c, tree_offset=k) without a label keyword *)
 Theorem gen_tree_entry :
@@ -227,6 +307,62 @@ Theorem gen_treelist_entry :
   = (do l <- treelist_get_off T lower upper parse_tree set_label add_comments true true true sch c k d ;; Ok (l, tt)).
 Proof. exact g_treelist_entry_eq. Qed.
 Print Assumptions gen_treelist_entry.
+
+(* TreeList.read(..) (no offsets) into an existing list with trees tl0 whose namespace holds ns0 *)
+Theorem gen_treelist_read :
+  forall (T : Type) (lower upper : str -> str)
+         (parse_tree : mapper -> tz -> res (option T * mapper * tz))
+         (set_label : T -> option str -> T) (add_comments : T -> list str -> T)
+         (sch : schema) (ns0 : list str) (d : doc) (tl0 : list T),
+  g_treelist_parse_and_create_from_stream T (doc_fuel d) tt
+    (route_reader_ns T lower upper parse_tree set_label add_comments sch ns0) d None None tl0
+  = (do r <- treelist_read T lower upper parse_tree set_label add_comments true true true sch ns0 d ;;
+     Ok (tl0 ++ fst r, tt)).
+Proof. exact g_treelist_read_eq. Qed.
+Print Assumptions gen_treelist_read.
+
+(* DataSet.get(.., exclude_chars=True), with (a = true: taxon_namespace=<namespace 0>) or without a namespace
+   argument: the compiled DataSet._parse_and_create_from_stream over the compiled DataReader.read_dataset over the
+   compiled _read (route_dataset, Proofs/C13GenGlue.v).  With characters read (the default) the compiled _read
+   stops at the call of _parse_nexus_stream (that branch of the block loop is not compiled). *)
+Theorem gen_dataset_entry :
+  forall (T : Type) (lower upper : str -> str)
+         (parse_tree : mapper -> tz -> res (option T * mapper * tz))
+         (set_label : T -> option str -> T) (add_comments : T -> list str -> T)
+         (sch : schema) (d : doc) (a : bool),
+  g_dataset_parse_and_create_from_stream T (doc_fuel d) tt
+    (route_reader T lower upper parse_tree set_label add_comments sch) d (attached_ns a) false true
+  = (do bl <- dataset_get T lower upper parse_tree set_label add_comments true true sch a d ;;
+     Ok ((attached_ns a, bl), tt)).
+Proof. exact g_dataset_entry_eq. Qed.
+Print Assumptions gen_dataset_entry.
+
+(* TreeArray.read_from_files([one file], .., tree_offset=k) for ANY iterator Y = (trees handed out, how it ended):
+   the trees passed to add_tree when the iterator is exhausted, its error otherwise *)
+Theorem gen_treearray_read_from_files :
+  forall (T : Type) (Y : yielder_t T) (k : Z) (added : list T) (fuel : nat),
+  g_treearray_read_from_files T fuel tt Y k added
+  = (do _ <- snd Y ;; Ok (tt, added ++ skipn (Z.to_nat k) (fst Y), tt)).
+Proof. exact g_treearray_read_eq. Qed.
+Print Assumptions gen_treearray_read_from_files.
+
+(* TreeArray.read over the COMPILED iterators (route_yielder, Proofs/C13GenFinal.v: the compiled
+   _yield_items_from_stream of the schema's iterator class on the fresh state) = the model's treearray_read *)
+Theorem gen_treearray_read :
+  forall (T : Type) (lower upper : str -> str)
+         (parse_tree : mapper -> tz -> res (option T * mapper * tz))
+         (set_label : T -> option str -> T) (add_comments : T -> list str -> T)
+         (sch : schema) (k : Z) (ns0 : list str) (d : doc),
+  let A := treearray_read T lower upper parse_tree set_label add_comments true sch k ns0 d in
+  g_treearray_read_from_files T (doc_fuel d) tt
+    (route_yielder T lower upper parse_tree set_label add_comments sch ns0 d) k []
+  = match snd A with
+    | Ok _ => Ok (tt, fst A, tt)
+    | Err e => Err e
+    | OutOfFuel => OutOfFuel
+    end.
+Proof. exact G_treearray_read. Qed.
+Print Assumptions gen_treearray_read.
 
 (* ============ 5. a theorem of Props/C13.v restated on the compiled code ============ *)
 (* nexus_loops_agree_full: the compiled reader and the compiled iterator, run on the same document,
@@ -254,3 +390,26 @@ Theorem gen_loops_agree :
   end.
 Proof. exact G_loops_agree. Qed.
 Print Assumptions gen_loops_agree.
+
+(* routes_agree_nexus_full restated on the compiled code alone: TreeList.read - compiled entry point, compiled
+   read_tree_lists / _read, compiled reader loops - adds to the list exactly the trees the compiled iterator
+   (Tree.yield_from_files into the same namespace) hands out, and fails exactly when it fails, with the same error *)
+Theorem gen_routes_agree :
+  forall (T : Type) (lower upper : str -> str)
+         (parse_tree : mapper -> tz -> res (option T * mapper * tz))
+         (set_label : T -> option str -> T) (add_comments : T -> list str -> T),
+  (forall m z ot m' z', parse_tree m z = Ok (ot, m', z') -> exists pre, z_toks z = pre ++ z_toks z') ->
+  (forall s, upper (upper s) = upper s) ->
+  forall (ns0 : list str) (d : doc) (tl0 : list T),
+  let Y := g_yield_items_from_stream T lower upper parse_tree set_label add_comments (mkNsCfg true (FacFixed false)) false
+             (doc_fuel d)
+             (mkRs (core_init (mkNsCfg true (FacFixed false)) ns0 d) (regs_init (mkNsCfg true (FacFixed false))) [] []) tt in
+  g_treelist_parse_and_create_from_stream T (doc_fuel d) tt
+    (route_reader_ns T lower upper parse_tree set_label add_comments Nexus ns0) d None None tl0
+  = match snd Y with
+    | Ok _ => Ok (tl0 ++ fst Y, tt)
+    | Err e => Err e
+    | OutOfFuel => OutOfFuel
+    end.
+Proof. exact G_routes_agree. Qed.
+Print Assumptions gen_routes_agree.
